@@ -7,7 +7,9 @@ package main
 // timestamps, because HeaderService.IsCurrent compares the tip's timestamp with the wall clock.
 // The textual form (one item per line) is what replay files and KNOWN_FINDINGS witnesses contain:
 //
-//   c06 engine=legacy|exp cpoff=0|1 cps=<idx,..> init=<idx,..> forbid=<idx,..> sched=serial|free seed=<n> salt=<n>
+//   c06 engine=legacy|exp cpoff=0|1 cps=<idx,..> init=<idx,..> forbid=<idx,..> sched=serial|free seed=<n> salt=<n> [readers=<n>]
+//        readers=n: n background goroutines read the store for the whole run the way the running service is read
+//        (Headers.GetTip, Headers.LatestHeaderLocator, GET /api/v1/chain/tip/longest through the gin engine)
 //   tree parents=<p0,p1,..> [bits=<hex,..>]          parent -1 = genesis; parent index < own index
 //   node path=<idx,..> pos=<k> cap=<n> dir=out|in honest=0|1 [closeat=<k>] [stallat=<k>] [nostop=1]
 //   step connect <node> | serve <node> | run | announce <node> inv|invx|headers <k> | push <node> inv|headers <idx,..>
@@ -58,6 +60,7 @@ type scn struct {
 	Sched   string
 	Seed    int64
 	Salt    uint32
+	Readers int // background goroutines that keep reading the store the way the service is read (tip, locator, GET tip)
 	Parents []int
 	Bits    []uint32
 	Nodes   []scnNode
@@ -130,6 +133,9 @@ func b01(b bool) string {
 func (s *scn) Ops() []string {
 	ops := []string{fmt.Sprintf("c06 engine=%s cpoff=%s cps=%s init=%s forbid=%s sched=%s seed=%d salt=%d", s.Engine, b01(s.CpOff),
 		compactInts(s.Cps), compactInts(s.Init), compactInts(s.Forbid), s.Sched, s.Seed, s.Salt)}
+	if s.Readers > 0 {
+		ops[0] += fmt.Sprintf(" readers=%d", s.Readers)
+	}
 	t := "tree parents=" + treeParentsStr(s.Parents)
 	allDefault := true
 	for _, b := range s.Bits {
@@ -265,6 +271,7 @@ func parseScn(ops []string) (*scn, error) {
 			s.Seed, _ = strconv.ParseInt(m["seed"], 10, 64)
 			u, _ := strconv.ParseUint(m["salt"], 10, 32)
 			s.Salt = uint32(u)
+			s.Readers, _ = strconv.Atoi(m["readers"])
 		case "tree":
 			if s.Parents, err = parseTreeParents(m["parents"]); err != nil {
 				return nil, err
